@@ -4,9 +4,11 @@ import (
 	"context"
 	"fmt"
 	"os"
+	"os/exec"
 	"path/filepath"
 	"reflect"
 	"sort"
+	"strconv"
 	"strings"
 	"sync"
 	"testing"
@@ -85,7 +87,9 @@ func TestVerif_C04(t *testing.T) {
 		rec.Violation("harness/build", err.Error(), nil)
 		return
 	}
-	defer os.RemoveAll(worlds)
+	if os.Getenv("C04_DEBUG_KEEP") == "" { // manual debugging only
+		defer os.RemoveAll(worlds)
+	}
 	type out struct {
 		setting string
 		path    string
@@ -114,9 +118,18 @@ func TestVerif_C04(t *testing.T) {
 			rec.Count("child_watchdog_fired", 1)
 			rec.Note("inconclusive", "child cache="+o.setting+": watchdog fired, last case "+clip(o.res.LastCase, 300))
 			continue
+		case o.res.Crashed() && o.res.Done && strings.Contains(o.res.Tail, "race detected during execution of test"):
+			// the child ran to its end; package testing fails a test during which the
+			// race detector reported something. The reports themselves are collected
+			// from the race logs by the driver and become violations there.
+			rec.Count("children_failed_by_race_detector", 1)
+			os.Remove(o.res.LogPath)
 		case o.res.Crashed():
 			rec.Violation("cache="+o.setting+"/process died/"+o.res.CrashClass(), "child process died: "+o.res.CrashClass(),
 				map[string]any{"setting": o.setting, "last_case": o.res.LastCase, "tail": clip(o.res.Tail, 6000)})
+			continue
+		}
+		if o.res.Crashed() && !o.res.Done {
 			continue
 		}
 		var a c04Answers
@@ -302,38 +315,52 @@ func newC04World(rec *kit.Rec, h int, root string, build bool) (*c04World, error
 }
 
 func c04Sizes(rec *kit.Rec) (worlds, historiesPerWorld, concEvery int) {
-	return rec.N(8, 100), rec.N(5, 6), rec.N(2, 5)
+	worlds = rec.N(8, 100)
+	if v, err := strconv.Atoi(os.Getenv("C04_DEBUG_WORLDS")); err == nil && v > 0 { // manual debugging only
+		worlds = v
+	}
+	return worlds, rec.N(5, 6), rec.N(2, 5)
 }
 
-// c04BuildWorlds writes every world's shards (in parallel: a shard builder costs
-// ~0.1 s of allocation, whatever the corpus size).
+// c04BuildWorlds writes every world's shards. This test binary is built with -race,
+// under which one index.ShardBuilder costs seconds (its two 16 MB posting tables are
+// range-checked by the race runtime), so the writing is done by the helper command
+// zz-verif-c04-build (same generator output, handed over as JSON, built without
+// -race). Without the helper (manual runs) the shards are written in-process.
 func c04BuildWorlds(rec *kit.Rec, root string) error {
 	n, _, _ := c04Sizes(rec)
-	var mu sync.Mutex
-	var first error
-	var wg sync.WaitGroup
-	ch := make(chan int)
-	for k := 0; k < 8; k++ {
-		wg.Add(1)
-		go func() {
-			defer wg.Done()
-			for h := range ch {
-				if _, err := newC04World(rec, h, root, true); err != nil {
-					mu.Lock()
-					if first == nil {
-						first = fmt.Errorf("world %d: %w", h, err)
-					}
-					mu.Unlock()
-				}
+	helper := filepath.Join(os.Getenv("VERIF_BIN"), "zz-verif-c04-build")
+	if _, err := os.Stat(helper); err != nil || os.Getenv("VERIF_BIN") == "" {
+		rec.Note("world_builder", "in-process (helper command not found)")
+		for h := 0; h < n; h++ {
+			if _, err := newC04World(rec, h, root, true); err != nil {
+				return fmt.Errorf("world %d: %w", h, err)
 			}
-		}()
+		}
+		return nil
 	}
+	var dirs []string
 	for h := 0; h < n; h++ {
-		ch <- h
+		w, err := newC04World(rec, h, "", false)
+		if err != nil {
+			return err
+		}
+		dir := filepath.Join(root, fmt.Sprintf("w%d", h))
+		if err := os.MkdirAll(dir, 0o755); err != nil {
+			return err
+		}
+		if err := writeJSON(filepath.Join(dir, "world.json.verif"), map[string]any{"Corpus": w.c, "Groups": w.groups}); err != nil {
+			return err
+		}
+		dirs = append(dirs, dir)
 	}
-	close(ch)
-	wg.Wait()
-	return first
+	cmd := exec.Command(helper, dirs...)
+	out, err := cmd.CombinedOutput()
+	if err != nil {
+		return fmt.Errorf("%s: %v: %s", helper, err, clip(string(out), 2000))
+	}
+	rec.Note("world_builder", "helper command zz-verif-c04-build (no -race)")
+	return nil
 }
 
 // survives: the predicate holds for some but not all live repositories of the
@@ -743,7 +770,8 @@ func c04ObserveCache(rec *kit.Rec, w *c04World, st c04Step, before, after c04Cac
 
 func c04Concurrent(rec *kit.Rec, w *c04World, h int, setting string, ans *c04Answers) {
 	r := rec.Rand(uint64(h) + 4_200_000)
-	G := []int{8, 16, 32}[r.IntN(3)]
+	_, _, concEvery := c04Sizes(rec)
+	G := []int{8, 32, 16}[(h/concEvery)%3]
 	per := rec.N(50, 50)
 	const nb = 36
 	// every goroutine gets its own query objects; all batteries are identical
@@ -879,4 +907,3 @@ func c04Concurrent(rec *kit.Rec, w *c04World, h int, setting string, ans *c04Ans
 	}
 }
 
-var _ = strings.Join
